@@ -1,5 +1,6 @@
 import Bch.Tie.Addr
 import Bch.Tie.Bech32
+import Bch.Tie.Bech32Gen
 import Bch.Tie.Base58
 import Bch.Tie.HD
 import Bch.Tie.Gcs
